@@ -1,4 +1,5 @@
 import Cello.Dispatch
+import Cello.DispatchMsg
 import Cello.DispatchId
 import CelloGen.Disp
 import Driver.Common
@@ -319,6 +320,24 @@ def lookupOp (s : St) (op : String) (tid : Nat) (cls : Cls) (k : Nat) : IO St :=
   IO.println s!"O {op} {res}{dump s' tid}"
   return s'
 
+/-- `e <tid> <cls> <k>`: type_method_at_offset(T, cls, k·sizeof(var), "member<k>") with the TEXT of the ClassError -/
+def msgOp (s : St) (tid : Nat) (cls : Cls) (k : Nat) : IO St := do
+  let a := addrOf s tid
+  let some t := s.w.get a | do bad; return s
+  match declared t.entries cls.name with
+  | some inst => if k ≥ inst.members.length then do bad; return s
+  | none => pure ()
+  let r := typeMethodAtW s.w (.typeObj a) cls k
+  let tname := (s.h.nameAt a).getD (symOf s tid)
+  let txt := methodAtText CelloGen.Disp.methodAtThrows slots t tname cls k s!"member{k}"
+  let msg : String := match r.2, txt.2 with
+    | .raised .ClassError, .raised e m => s!"{e}: {m}"
+    | .ok _, .ok _ => "-"
+    | _, _ => "?"
+  let s' := s.setW r.1
+  IO.println s!"O e {showInst t r.2} | {msg}{dump s' tid}"
+  return s'
+
 /-- `c d g f <tid> <fn>`: a dispatching function / macro call site used on an object of the run-time type tid -/
 def callOp (s : St) (op : String) (tid : Nat) (fname : String) : IO St := do
   let a := addrOf s tid
@@ -586,6 +605,28 @@ def main (args : List String) : IO Unit := do
               | none => bad
           | none => bad
         | _, _ => bad
+      else if op = "e" then
+        match tidS.toNat?, clsOf s sym, rest with
+        | some tid, some cls, [kS] =>
+          match kS.toNat? with
+          | some k => if kindOf s tid = 0 || k ≥ cellW then bad else s ← msgOp s tid cls k
+          | none => bad
+        | _, _, _ => bad
+      else if op = "U" then
+        -- U <tid> <nthreads> <rounds> <seed> <cls>… : threads on COLD COPIES of the record; the record itself is not touched
+        match tidS.toNat?, sym.toNat?, rest with
+        | some tid, some nth, rS :: seedS :: ctoks =>
+          match rS.toNat?, seedS.toNat?, ctoks.mapM (clsOf s), s.recOf tid with
+          | some rounds, some seed, some classes, some t =>
+            if classes.isEmpty || nth < 2 || nth > 64 || rounds < 1 || rounds > 100000 || kindOf s tid = 0 then bad
+            else
+              -- the model's side of the stress: two pseudo-random interleavings of the step machine on the cold record
+              let (_, ok1) := simulate t nth classes (seed * 1000003 + nth * 7919 + rounds)
+              let (_, ok2) := simulate { t with hdr := false } (min nth 4) classes (seed + 17)
+              if !(ok1 && ok2) then IO.println "O MODEL-INCONSISTENT U the interleaved step machine broke the invariant or returned a non-declared instance"
+              IO.println s!"O U n={nth * rounds * classes.length * 3} bad=0 warm=0"
+          | _, _, _, _ => bad
+        | _, _, _ => bad
       else if op = "H" then
         -- H <tid> <nthreads> <rounds> <cls>… : sym = nthreads
         match tidS.toNat?, sym.toNat?, rest with
